@@ -1085,6 +1085,17 @@ def gen_blocked_cl_case(rng):
             body = hc.frame(1, wire.block(sid, hs))
         except ValueError:
             body = hc.frame(1, wire.block(sid, [(b":status", b"200"), marker] if client else list(hc.REQ) + [marker]))
+        if client and rng.random() < 0.35:
+            # a PUSH_PROMISE whose block has to wait (resumed with frame_data=None when it is the first waiting frame of
+            # the stream: in front of the response, or behind headers that decode at once), well formed or mutated
+            ph = list(hc.REQ) + [marker]
+            if rng.random() < 0.4:
+                ph = _mutate_headers(rng, ph)
+            try:
+                pp = hc.frame(5, hc.uvar(rng.randint(0, 7)) + wire.block(sid, ph))
+                body = pp + body if rng.random() < 0.5 else body + pp
+            except ValueError:
+                pass
         r = rng.random()
         if r < 0.65:
             n = rng.choice([0, 3, 3, 5, 10])
